@@ -27,9 +27,8 @@ Definition mk_stmt (label : text) (i : irow) (o : operand) (s : text) : stmt :=
 Definition parse_line (line : text) : res (option stmt) :=
   if mem_c 10 (removelast line) then Unmodelled           (* a newline inside the line: not produced by readlines() *)
   else if all_c is_space line then Ok None
-  else match lstrip line with
-  | 59 :: _ => Ok None
-  | _ =>
+  else if hd 0 (lstrip line) =? 59 then Ok None
+  else
     let '(label, r1) := span is_labelch line in
     match r1 with
     | c1 :: _ =>
@@ -66,8 +65,7 @@ Definition parse_line (line : text) : res (option stmt) :=
       | [] => Diag 1
       end
     | [] => Diag 1
-    end
-  end.
+    end.
 
 Fixpoint parse_lines (lines : list text) : res (list stmt) :=
   match lines with
